@@ -23,6 +23,7 @@ fn s_v(s: &str) -> Value {
 fn spoil_hex(s: &str, pos: &str) -> String {
     // a recorded digest of another length differs as well
     match pos {
+        "second" => return spoil_hex(s, "middle"),
         "short" => return s[..s.len() - 1].to_string(),
         "long" => return format!("{s}0"),
         _ => {}
@@ -35,6 +36,7 @@ fn spoil_hex(s: &str, pos: &str) -> String {
 fn spoil_bin(b: &[u8], pos: &str) -> Vec<u8> {
     let mut c = b.to_vec();
     match pos {
+        "second" => return spoil_bin(b, "middle"),
         "short" => { c.pop(); return c; }
         "long" => { c.push(0); return c; }
         _ => {}
@@ -51,11 +53,17 @@ pub fn materialise(d: &Value, pos: &str) -> Vec<u8> {
     let mut h: Vec<(u32, u32, Value)> = vec![
         (1000, T_STRING, s_v("carrier")), (1001, T_STRING, s_v("1")), (1002, T_STRING, s_v("1")),
         (1004, T_I18N, s_v("s")), (1022, T_STRING, s_v("noarch")),
+        // an entry of every integer-like data type (rpm itself stores FILESTATES as CHAR): what is hashed are the header's
+        // own bytes, whatever their types
+        (1029, T_CHAR, json!([1, 0])), (1033, T_INT16, json!([0, 7])), (5009, T_INT64, json!([[0, 0, 0, 37]])), (1101, T_INT8, json!([3])),
     ];
     match d["payload"].as_str().unwrap() {
         "absent" => {}
         "wrongtype" => h.push((5092, T_INT32, json!([7]))),
         "match" => h.push((5092, T_STRARR, s_v(&pay_sha))),
+        // (with position "second": an array whose first item is wrong and whose second item is right - the recorded
+        // digest is the first)
+        "mismatch" if pos == "second" => h.push((5092, T_STRARR, json!([spoil_hex(&pay_sha, "middle").as_bytes(), pay_sha.as_bytes()]))),
         "mismatch" => h.push((5092, T_STRARR, s_v(&spoil_hex(&pay_sha, pos)))),
         _ => h.push((5092, T_STRARR, json!([]))),
     }
